@@ -171,7 +171,7 @@ def main(argv=None):
                     undecided.append(f"{full}: solver unknown")
                 else:
                     # prefer a counter-model that agrees with the real library (vc.Explorer.realistic_model), else the first
-                    bad = sorted([o for o in os_ if o["status"] == "failed"], key=lambda o: 0 if (o.get("model") or {}).get("$realistic") else 1)[0]
+                    bad = sorted([o for o in os_ if o["status"] == "failed"], key=lambda o: 0 if (o.get("model") or {}).get("$realistic") else (1 if o.get("model") is not None else 2))[0]
                     failed_items.append((r["scenario"], name, full, bad))
         # ---- replay counter-models on the real code
         confirmed = []
